@@ -32,10 +32,36 @@ static void one(const char *cont, int len) {
     const char *a = vc_asan_check(); if (a) { char cls[160]; snprintf(cls, sizeof cls, "asan:%s:%s", a, label); vc_viol(cls, "%s: sanitizer report", key); }
     vc_case_end();
 }
+/* integer boundary family: putint/getint (decimal text inside the table) and pushint/popint/getint (8 bytes) for every
+ * value 0, +-1, +-(10^k - 1), +-10^k (k = 1..18), INT64_MAX, INT64_MAX-1, INT64_MIN, INT64_MIN+1 - every digit count of the
+ * formatting buffer, both signs */
+static void intcase(const char *cont, int64_t v) {
+    char key[80]; snprintf(key, sizeof key, "intfmt:%s:%lld", cont, (long long)v);
+    char label[64]; snprintf(label, sizeof label, "%s_%s", cont, cont[1] == 'q' || cont[1] == 's' ? "pushint" : "putint");
+    if (!vc_case(label, key)) return;
+    n_eval++;
+    long live0 = va_live;
+    char exp[32]; int el = snprintf(exp, sizeof exp, "%lld", (long long)v); size_t sz = 0;
+    if (!strcmp(cont, "qhashtbl")) { qhashtbl_t *t = qhashtbl(3, 0); bool r = t->putint(t, "k", v); if (!r) vc_viol("fmt:qhashtbl_putint", "putint(%s) returned false", exp); int64_t g = t->getint(t, "k"); if (g != v) vc_viol("map:getint", "putint(%s); getint = %lld", exp, (long long)g); char *d = t->get(t, "k", &sz, true); chk("qhashtbl_putint", el, d, sz, exp); free(d); char *gs = t->getstr(t, "k", false); if (!gs || strcmp(gs, exp)) vc_viol("map:getstr-value", "putint(%s); getstr = '%s'", exp, gs ? gs : "(null)"); t->free(t); }
+    else if (!strcmp(cont, "qlisttbl")) { qlisttbl_t *t = qlisttbl(0); bool r = t->putint(t, "k", v); if (!r) vc_viol("fmt:qlisttbl_putint", "putint(%s) returned false", exp); int64_t g = t->getint(t, "k"); if (g != v) vc_viol("multimap:getint", "putint(%s); getint = %lld", exp, (long long)g); char *d = t->get(t, "k", &sz, true); chk("qlisttbl_putint", el, d, sz, exp); free(d); t->free(t); }
+    else if (!strcmp(cont, "qqueue")) { qqueue_t *q = qqueue(0); q->pushint(q, v); q->pushint(q, ~v); int64_t a = q->getint(q), b = q->popint(q), c = q->popint(q); if (a != v || b != v || c != ~v) vc_viol("seq:int", "qqueue pushint(%s): getint %lld popint %lld, %lld", exp, (long long)a, (long long)b, (long long)c); q->free(q); }
+    else if (!strcmp(cont, "qstack")) { qstack_t *q = qstack(0); q->pushint(q, ~v); q->pushint(q, v); int64_t a = q->getint(q), b = q->popint(q), c = q->popint(q); if (a != v || b != v || c != ~v) vc_viol("seq:int", "qstack pushint(%s): getint %lld popint %lld, %lld", exp, (long long)a, (long long)b, (long long)c); q->free(q); }
+    if (va_live != live0) vc_viol("leak:blocks", "%s: %ld blocks leaked", key, va_live - live0);
+    const char *a = vc_asan_check(); if (a) { char cls[160]; snprintf(cls, sizeof cls, "asan:%s:%s", a, label); vc_viol(cls, "%s: sanitizer report", key); }
+    vc_case_end();
+}
+static void ints(const char *cont) {
+    int64_t p = 1;
+    intcase(cont, 0);
+    for (int k = 0; k <= 18; k++) { intcase(cont, p); intcase(cont, -p); if (k) { intcase(cont, p - 1); intcase(cont, -(p - 1)); } if (k < 18) p *= 10; }
+    intcase(cont, INT64_MAX); intcase(cont, INT64_MAX - 1); intcase(cont, INT64_MIN); intcase(cont, INT64_MIN + 1);
+}
 static int worker(int argc, char **argv) {
     const char *all[] = {"qtreetbl", "qhashtbl", "qlisttbl", "qhasharr", "qgrow", "qstring"};
+    if (vc_replay_key && !strncmp(vc_replay_key, "intfmt:", 7)) { char c[32]; long long v; if (sscanf(vc_replay_key, "intfmt:%31[^:]:%lld", c, &v) == 2) intcase(c, v); return 0; }
     if (vc_replay_key) { char c[32]; int len; if (sscanf(vc_replay_key, "bigfmt:%31[^:]:%d", c, &len) == 2) one(c, len); return 0; }
     for (int i = 0; i < 6; i++) if (argc < 2 || !strcmp(argv[1], "all") || !strcmp(argv[1], all[i])) for (int l = 0; l < NLENS; l++) one(all[i], LENS[l]);
+    { const char *ic[] = {"qhashtbl", "qlisttbl", "qqueue", "qstack"}; for (int i = 0; i < 4; i++) if (argc < 2 || !strcmp(argv[1], "all") || !strcmp(argv[1], ic[i])) ints(ic[i]); }
     vc_stat_add("evaluations", n_eval); vc_stat_add("transitions", n_eval); vc_stat_add("states", n_eval); vc_stat_add("nontrivial", n_eval);
     vc_sample("putstrf(key, \"%%s\", <1023 / 1024 / 1025 / 2048 / 10000 byte string>) on every container with a formatted insert");
     return 0;
